@@ -19,7 +19,7 @@
    Clauses (the property as stated in properties.jsonl, nothing more):
      C03.lost_wakeup  a "stuck" line with n > 0
      C03.duplicate    an event dispatched twice
-     C03.reordered    a thread's events dispatched out of firing order
+     C03.order        a thread's events dispatched out of firing order
      C03.lost_event   at "end", an event whose fire() returned was never dispatched *)
 EXTENDS Integers, Sequences, FiniteSets, Json, IOUtils, TLC
 
@@ -40,7 +40,7 @@ LastN(Q, t) == IF Last(Q, t) = 0 THEN 0 ELSE Q.last[Last(Q, t)][2]
 Fail(Q, ln) ==
   IF ln.k = "disp" THEN
        IF <<ln.t, ln.n>> \in Q.disp THEN "C03.duplicate"
-       ELSE IF ln.n < LastN(Q, ln.t) THEN "C03.reordered"
+       ELSE IF ln.n < LastN(Q, ln.t) THEN "C03.order"
        ELSE ""
   ELSE IF ln.k = "stuck" THEN (IF ln.n > 0 THEN "C03.lost_wakeup" ELSE "")
   ELSE IF ln.k = "end" THEN (IF Q.ret \subseteq Q.disp THEN "" ELSE "C03.lost_event")
